@@ -89,7 +89,7 @@ struct Scenario {
 			auto audio = audioOf(*order[i]);
 			if (p.entries[i].name != baseOf(*order[i])) { bad("archive-layout/name-order", key, "entry " + std::to_string(i) + " is '" + p.entries[i].name + "' expected '" + baseOf(*order[i]) + "'"); return false; }
 			if (p.entries[i].length != audio.size()) { bad("archive-layout/length", key, p.entries[i].name + " " + std::to_string(p.entries[i].length) + " expected " + std::to_string(audio.size())); return false; }
-			if (std::memcmp(bytes.data() + p.entries[i].offset, audio.data(), audio.size()) != 0) { bad("archive-layout/data", key, p.entries[i].name); return false; }
+			if (!audio.empty() && std::memcmp(bytes.data() + p.entries[i].offset, audio.data(), audio.size()) != 0) { bad("archive-layout/data", key, p.entries[i].name); return false; }
 		}
 		bool ok = true;
 		auto o = mc::guarded([&] {
